@@ -288,7 +288,7 @@ func handCase(rng *prng.R, feats []string, minimal bool) *oneCase {
 		y := b.reg("in/c", b.c)
 		y.Chunks, y.NewStream = nil, []bool{false}
 		big := b.reg("in/big", 3*b.c+1)
-		big.NewStream = []bool{rng.Bool(), false, false, true}
+		big.NewStream = []bool{minimal || rng.Bool(), false, false, true}
 		mix := b.reg("in/mix", b.c+2)
 		mix.NewStream = []bool{false, rng.Bool()}
 		last := b.reg("in/last", 2*b.c)
